@@ -260,6 +260,11 @@ func jobsFor(prop, tier string) []*Job {
 					Bounds: "three servers with symbolic weights 1..3, symbolic rotation state (0..3 warm-up selections), symbolic target server: request without cookie, request with the target's cookie, the same cookie after the target was removed; real http cookie parsing/formatting interpreted"})
 			}
 		}
+	case "C08":
+		for part := 0; part < 8; part++ {
+			add(&Job{Name: fmt.Sprintf("O1O2-director-pipeline/mode=%d,part=%d", part/4, part%4), Pkg: "forward", Harness: "VerifC08Pipeline", Params: p("part", part%4, "mode", part/4), IncKind: "cvc5", TimeoutS: 60, Solvers: []string{"cvc5", "z3"},
+				Bounds: "real Director closure of forward.New inside a transcription of ReverseProxy's documented outbound steps; symbolic: passHostHeader, TLS, Host with/without port, peer address form (IPv4, IPv6, IPv6+zone), which forwarding headers an upstream proxy supplied, prior X-Forwarded-For, the subset of 7 header names listed in Connection, request target from a corpus of 11 (escaped slash/space, multi-byte, ';', '+', '//', dot segments, empty query)"})
+		}
 	}
 	return js
 }
